@@ -275,7 +275,19 @@ pub fn c20_gen(rng: &mut Rng, n: usize) -> Vec<Case> {
     while out.len() < n && tries < n * 40 {
         tries += 1;
         let mut p = gen_program(rng, &opts);
-        let (fault, depth) = if rng.chance(80) { let (f, _, d) = inject_runtime_fault(rng, &mut p); (f, d) } else { (String::new(), 0) };
+        let (mut fault, depth) = if rng.chance(70) { let (f, _, d) = inject_runtime_fault(rng, &mut p); (f, d) } else { (String::new(), 0) };
+        if fault.is_empty() && rng.chance(70) {
+            // conflicts between statements of DIFFERENT stanzas/matches (two-sided contexts in lazy mode)
+            let x = *rng.pick(&[
+                "(identifier) @id {\n  let @id.zzv = 1\n}\n\n(function_definition name: (identifier) @name body: (block) @_body) {\n  let @name.zzv = 2\n}\n",
+                "(identifier) @id {\n  node @id.zzn\n  attr (@id.zzn) k = 1\n}\n\n(call function: (identifier) @fn) {\n  attr (@fn.zzn) k = 2\n}\n",
+                "(module) @m {\n  node @m.zzn\n}\n\n(identifier) @id {\n  node y\n  edge @id.zzn -> y\n}\n",
+                "(assignment left: (identifier) @l) @a {\n  let @l.zzv = @a\n}\n\n(identifier) @id {\n  let @id.zzv = 3\n}\n",
+            ]);
+            let pos = rng.below(p.stanzas.len() + 1);
+            p.stanzas.insert(pos, x.to_string());
+            fault = "cross-stanza conflict".to_string();
+        }
         let src = gen_source(rng);
         let inp = ExecInput { dsl: p.text(), src, supplied: p.supplied.clone() };
         let lazy = rng.chance(50);
@@ -678,15 +690,23 @@ pub fn c04_input(rng: &mut Rng) -> ExecInput {
     if rng.chance(10) { st.push("(call function: (identifier) @f) {\n  node r\n  attr (r) k = @f.k\n}\n".into()); }   // not inherited: undefined unless defined on this node
     if inherit && rng.chance(30) { st.push("(return_statement) @r {\n  node q\n  edge q -> @r.scope\n  attr (q -> @r.scope) via = \"return\"\n}\n".into()); }
     if st.is_empty() { st.push("(module) @m {\n  node @m.scope\n}\n".into()); }
-    // shuffle stanza order (matters for strict)
-    if rng.chance(30) { for i in (1..st.len()).rev() { let j = rng.below(i + 1); st.swap(i, j); } }
+    // reads of one node repeated around later definitions (a lookup must see the NEAREST definition at the time of the read)
+    if inherit && rng.chance(60) {
+        let rd = |tag: &str| format!("(pass_statement) @p {{\n  node r\n  attr (r) when = \"{}\"\n  edge r -> @p.scope\n}}\n", tag);
+        let rd2 = |tag: &str| format!("(return_statement) @p {{\n  node r\n  attr (r) when = \"{}\"\n  edge r -> @p.scope\n}}\n", tag);
+        let k = 1 + rng.below(3);
+        for i in 0..k { let pos = rng.below(st.len() + 1); st.insert(pos, if rng.chance(50) { rd(&format!("t{}", i)) } else { rd2(&format!("t{}", i)) }); }
+    }
+    // stanza order matters for strict execution: outer definitions first, then a random interleaving
+    if rng.chance(50) { for i in (1..st.len()).rev() { let j = rng.below(i + 1); st.swap(i, j); } }
+    else if rng.chance(50) { st.sort_by_key(|x| if x.starts_with("(module)") { 0 } else if x.starts_with("(class_definition)") { 1 } else { 2 }); }
     let mut v = pre; v.extend(st);
     // deeply nested sources with same-range parent/child chains
     let src = if rng.chance(50) { gen_source(rng) } else {
         let mut s = String::new();
         let depth = 1 + rng.below(4);
         for d in 0..depth { s.push_str(&format!("{}def f{}(a):\n", "    ".repeat(d), d)); }
-        s.push_str(&format!("{}return g(a)\n", "    ".repeat(depth)));
+        s.push_str(&format!("{}{}\n", "    ".repeat(depth), if rng.chance(50) { "return g(a)" } else { "pass" }));
         if rng.chance(50) { s.push_str("x = f0(1)\n"); }
         if rng.chance(30) { s.push_str("class K:\n    def m(self):\n        return self\n"); }
         s
